@@ -158,7 +158,7 @@ H_creq(r) ==
     IF r.c \notin DOMAIN o.conns \/ ~o.conns[r.c].alive THEN Res(o, {})
     ELSE LET cl == o.conns[r.c]
              cl2 == [cl EXCEPT !.pend = Put(cl.pend, r.id, [m |-> r.m, rid |-> r.rid, key |-> r.key, count |-> r.count, action |-> r.action, l |-> l,
-                                                                  held |-> r.rid \in Held(cl.direct, cl.res)]),
+                                                                  held |-> r.rid \in Held(cl.direct, cl.res), fwd |-> FALSE]),
                                !.rn = Put(cl.rn, r.rid, [n |-> r.n, q |-> r.q, key |-> r.key])]
          IN Res(SetConn(o, r.c, cl2), {})
 
@@ -473,7 +473,13 @@ H_mreq(r) ==
                           cands == {i \in DOMAIN cl.pend : cl.pend[i].key = r.key /\
                                       ((cl.pend[i].m = "new" /\ r.meth = "new") \/ (cl.pend[i].m = "call" /\ cl.pend[i].action = r.meth))}
                           CallOK(x) == CallAllowed(x.call, x.calllist, r.meth)
-                          sts == IF cands = {} THEN {Verdict(cl, r.key, l, CallOK)} ELSE {Verdict(cl, r.key, cl.pend[i].l, CallOK) : i \in cands}
+                          \* calls of one connection on one resource and method are forwarded in request order: the oldest
+                          \* request not yet forwarded is the one this call belongs to (an older request is never judged
+                          \* more strictly than a newer one, so a wrong guess cannot raise an alarm)
+                          open == {i \in cands : ~cl.pend[i].fwd}
+                          sts == IF cands = {} THEN {Verdict(cl, r.key, l, CallOK)}
+                                 ELSE IF open = {} THEN {Verdict(cl, r.key, cl.pend[i].l, CallOK) : i \in cands}
+                                 ELSE {Verdict(cl, r.key, cl.pend[CHOOSE i \in open : \A j \in open : cl.pend[i].l <= cl.pend[j].l].l, CallOK)}
                       IN IF "ok" \in sts THEN {}
                          ELSE {V("C05", "call " \o r.subj \o " forwarded without a valid grant for the method: " \o ToString(g), IF "kf" \in sts THEN "KF-R" ELSE "")}
                  ELSE {}
@@ -497,7 +503,15 @@ H_mreq(r) ==
                    \cup (IF r.key \notin qe.loaded /\ r.key \notin QCached(qe.n)
                          THEN {V("C13", "query request for " \o r.key \o " which is not a cached query of the resource", "")} ELSE {})
         o3 == IF isQ THEN [o2 EXCEPT !.qev = Put(o2.qev, r.subj, [qe EXCEPT !.got = @ \cup {r.key}, !.open = @ \cup {r.k}])] ELSE o2
-    IN Res(o3, badV \cup cidV \cup goneV \cup tokV \cup subV \cup callV \cup tidV \cup qV)
+        o4 == IF r.t = "call" /\ known
+              THEN LET cl == o3.conns[r.c]
+                       open == {i \in DOMAIN cl.pend : ~cl.pend[i].fwd /\ cl.pend[i].key = r.key /\
+                                  ((cl.pend[i].m = "new" /\ r.meth = "new") \/ (cl.pend[i].m = "call" /\ cl.pend[i].action = r.meth))}
+                   IN IF open = {} THEN o3
+                      ELSE LET i0 == CHOOSE i \in open : \A j \in open : cl.pend[i].l <= cl.pend[j].l
+                           IN SetConn(o3, r.c, [cl EXCEPT !.pend = Put(@, i0, [@[i0] EXCEPT !.fwd = TRUE])])
+              ELSE o3
+    IN Res(o4, badV \cup cidV \cup goneV \cup tokV \cup subV \cup callV \cup tidV \cup qV)
 
 -----------------------------------------------------------------------------
 Content(r) == IF r.kind = "m" THEN Model(r.val) ELSE Coll(r.list)
